@@ -240,19 +240,8 @@ def v4(run, project):
                     "False", "ValidValues.__contains__ is `get(value) is not None`", "ValidValues.__contains__", predicate=True)
     run.require(n >= 2, "C04: ValidValues.__contains__ has no two outcomes")
     valid_values_get(run, "V4", vals, g)
-    named_range_contains(run, "V4", vals)
-    ni = vals.functions().get("NamedRange.__init__")
-    if ni is None:
-        raise AnalysisError("C04: NamedRange.__init__ not found")
-    params = [a.arg for a in ni.args.args]
-    run.require(len(params) >= 5, "C04: NamedRange.__init__ signature changed")
-    pa, pb = params[3], params[4]
-    n = check_table(run, "V4", vals, ni, "NamedRange.__init__",
-                    [({f"{pb} is None": True}, ("0", pa)), ({f"{pb} is None": False}, (pa, pb))],
-                    lambda q: (stores(q).get("self._start"), stores(q).get("self._end")), None,
-                    "NamedRange(type, name, a, b) spans [a, b), NamedRange(type, name, a) spans [0, a)", "NamedRange.__init__",
-                    skip=lambda q: q.end == "raise", show=lambda o: f"[start, end) = {o}")
-    run.require(n >= 2, "C04: NamedRange.__init__ has no two outcomes")
+    from . import namedrange
+    namedrange.check(run, "V4", vals)
     cc = vals.functions().get("tpm_enum._tpm_enum.class_contains")
     if cc is None:
         raise AnalysisError("C04: tpm_enum.class_contains not found")
@@ -307,7 +296,8 @@ def valid_values_get(run, rule, vals, g):
             ({E: True}, f"return {v}"),
             ]
     # the containers of a valid set are ranges, NamedRanges and enum classes: none of them compares equal to a number
-    implies = [((H, True), (E, False))]
+    # ... and ranges / NamedRanges are containers
+    implies = [((H, True), (E, False)), ((R, True), (H, True)), ((N, True), (H, True))]
     n = 0
     for p in its:
         want = paths.decide(rows, "next item", View(p), implies)
